@@ -16,10 +16,11 @@ from ahbicht.expressions.expression_resolver import parse_expression_including_u
 
 TOKEN_ALPHABET = list("[]()UOXuox∧∨⊻0123456789P.B \t\n") + ["[1]", "[2]", "[901]", "[10P]", "[UB1]", "[3P0..1]", "U", "O", "..", "P", "UB"]
 INDICATORS = ["Muss", "muss", "MUSS", "M", "m", "Soll", "soll", "S", "s", "Kann", "kann", "K", "k", "X", "x", "O", "o", "U", "u", "mUsS", "sOLL", "kANN"]
-WEIRD = ["\x00", "\x0b", "\x1c", "\x85", "\xa0", " ", "　", "﻿", "ſ", "K", "ı", "İ", "ß", "١", "１", "१", "²", "①", "́", "\ud800", "\U0001d7d9", "a", "n", "l", "e", "é", "ß", "p", "b", "Ⅹ", "Ｘ", "Ｕ", "О", "Х"]
+WEIRD = ["{", "}", "{0}", "{foo}", "%s", "%(x)s", "%", "\\", "$", "\x00", "\x0b", "\x1c", "\x85", "\xa0", " ", "　", "﻿", "ſ", "K", "ı", "İ", "ß", "١", "１", "१", "²", "①", "́", "\ud800", "\U0001d7d9", "a", "n", "l", "e", "é", "ß", "p", "b", "Ⅹ", "Ｘ", "Ｕ", "О", "Х"]
 GARBAGE_ALPHABET = TOKEN_ALPHABET + INDICATORS + WEIRD
 
 FIXED = [
+    "{", "}", "{}", "{0}", "{foo}", "Muss [1] U {2}", "[1] U [2] }", "Muss{[1]}", "%s", "Muss %d", "[1]%", "[1]\\", "${x}", "Muss [1] {requirement_indicators}",
     "", " ", "\t", "\n", "   ", "[]", "[ ]", "()", "( )", "[", "]", "(", ")", "[1", "1]", "[1]]", "[[1]]", "([1]", "[1])", "[1]U", "U[1]", "[1]UU[2]", "[1]U O[2]", "[1] U", "[1]()", "()[1]",
     "[P]", "[1 P]", "[P1]", "[1P0..0]", "[1P1..0]", "[1P..1]", "[1P1..]", "[1P1.2]", "[1P1...2]", "[1P1..2..3]", "[1P 1..2]", "[1P1 ..2]", "[1P1.. 2]", "[1PP]", "[1P2P]", "[1p]", "[ub1]", "[UB0]", "[UB4]", "[UB]",
     "[UB12]", "[U B1]", "[UB 1]", "[1 2]", "[1,2]", "[1;2]", "[-1]", "[+1]", "[1.0]", "[1e3]", "[0x1]", "[١]", "[１]", "[1P٣..5]", "[1P3..٥]", "[1P1..1٣]", "[²]", "[1]∧∧[2]", "[1]&[2]", "[1]|[2]", "[1]^[2]", "[1]AND[2]",
